@@ -352,6 +352,70 @@ theorem mapper_round_trip_serialize (S : StrFns) (camel : Bool) (c : Cls) (ov : 
     deser S camel c ov strict (serialize S camel c ov x) = .ok x :=
   mapper_round_trip S camel c _ ov strict x h
 
+/-! ### classes that forbid additional properties, and `Deserializer`'s default -/
+
+theorem exFree_closed (S : StrFns) (camel ku : Bool) (names : List String) (ms : MDict)
+    (kvs : List (String × J)) : exFree S camel ku true names ms kvs = true := by
+  simp [exFree, Mappers.extrasOf]
+
+mutual
+theorem rtFields_closed (S : StrFns) (camel : Bool) (lv : LevelPred) :
+    ∀ (fs : List Fld) (ku : Bool) (ms M : MDict) (kvs : List (String × J)), closedFs fs = true →
+      rtFields S camel ku lv ms M fs kvs = rtFields S camel false lv ms M fs kvs
+  | [], _, _, _, _, _ => by simp [rtFields]
+  | f :: fs, ku, ms, M, kvs, h => by
+    simp only [closedFs, and_true_iff'] at h
+    cases kvs with
+    | nil => simp [rtFields]
+    | cons p rest =>
+      simp only [rtFields, rtFld_closed S camel lv f ku ms M p h.1,
+        rtFields_closed S camel lv fs ku ms M rest h.2]
+theorem rtFld_closed (S : StrFns) (camel : Bool) (lv : LevelPred) :
+    ∀ (f : Fld) (ku : Bool) (ms M : MDict) (p : String × J), closedF f = true →
+      rtFld S camel ku lv ms M f p = rtFld S camel false lv ms M f p
+  | .scalar n o, _, _, _, _, _ => by simp [rtFld]
+  | .nested n o sh ci fs, ku, ms, M, p, h => by
+    simp only [closedF, and_true_iff'] at h
+    simp only [rtFld, h.1, exFree_closed, kuNext_false, Bool.true_and]
+    congr 2
+    funext y
+    cases y with
+    | obj kvs =>
+      simp only [rtObj]
+      rw [rtFields_closed S camel lv fs (kuNext ku camel ci.desL) _ _ kvs h.2]
+    | null => rfl
+    | int i => rfl
+    | str s => rfl
+    | arr xs => rfl
+end
+
+/-- **Closed trees.**  If the class and every class nested in it set `_additional_properties = False` in
+    their own bodies, no serialized key is ever kept as an undefined attribute: the hypotheses of the
+    round trip do not depend on `keep_undefined`, and `deserialize(serialize x) = x` for every
+    `keep_undefined` under the level hypotheses alone. -/
+theorem closed_tree_round_trip (S : StrFns) (camel ku : Bool) (c : Cls) (ms : MDict) (ov : Option MDict)
+    (strict : Bool) (x : J) (hc : c.closedOwn = true) (hcl : closedFs c.fields = true)
+    (h : rtCls S camel (levelOK S) c ms ov strict x = true) :
+    deserK S camel ku c ov strict (ser S camel ms x) = .ok x := by
+  apply mapper_round_trip_K
+  cases x with
+  | obj kvs =>
+    simp only [rtCls, rtClsK, and_true_iff', hc, exFree_closed, kuNext_false] at h ⊢
+    refine ⟨⟨h.1.1, trivial⟩, ?_⟩
+    rw [rtFields_closed S camel _ c.fields _ _ _ kvs hcl]
+    exact h.2
+  | null => simp [rtCls, rtClsK] at h
+  | int i => simp [rtCls, rtClsK] at h
+  | str s => simp [rtCls, rtClsK] at h
+  | arr xs => simp [rtCls, rtClsK] at h
+
+/-- `Deserializer(cls).deserialize` on a class that allows additional properties passes
+    `keep_undefined = False`: nothing is ever kept, whatever the nested classes say -/
+theorem open_top_default_keeps_nothing (S : StrFns) (camel : Bool) (c : Cls) (ov : Option MDict) (strict : Bool)
+    (doc : J) (h : c.closedAny = false) :
+    deserK S camel c.closedAny c ov strict doc = deser S camel c ov strict doc := by
+  rw [h]; rfl
+
 /-- **No fallback capture.**  Under the level hypotheses an absent field reads nothing from the
     serialized level — neither under its key nor under its own name — with or without
     `use_strict_mapping` (before /repo f476845 this needed the extra hypothesis `NoFallbackCapture`). -/
